@@ -55,7 +55,7 @@ Proof. exact decode_wf. Qed.
 Print Assumptions C16_decoded_well_formed.
 
 (** Malformed sizes, the part that holds (name: _partial -- negative and fractional sizes are NOT rejected, see
-    C16_refuted_nonpositive_rejected below): in a document whose (last) tileMatrices member is an array containing a
+    C16_refuted_nonpositive_rejected below, F6b): in a document whose (last) tileMatrices member is an array containing a
     tile matrix object with tileWidth / tileHeight / matrixWidth / matrixHeight a number whose float64 image lies
     strictly between -1 and 1 (zero, and everything that truncates to zero), or with a cellSize / scaleDenominator
     that is not positive, decoding does not succeed. *)
@@ -67,12 +67,18 @@ Theorem C16_nonpositive_rejected_partial : forall o l tmo k d q,
 Proof. exact nonpositive_rejected_lemma. Qed.
 Print Assumptions C16_nonpositive_rejected_partial.
 
-(** Totality, the part that holds (name: _partial -- the full statement is refuted by F6c below): a document in which
-    no pointOfOrigin / lowerLeft / upperRight member, at any depth, is an array of more than 2 elements never makes
-    the decoder panic -- whatever else is wrong with it, the answer is a value or an error. *)
-Theorem C16_decode_total_partial : forall j, points_short j = true -> decodeTMS j <> Panic /\ decodeTMS j <> ErrorOrPanic.
-Proof. exact decode_total_partial_lemma. Qed.
-Print Assumptions C16_decode_total_partial.
+(** Totality: decoding NEVER panics -- for every JSON tree the answer is a value or an error.  (Unconditional since
+    the repair of F6c in /repo 909171c; before, a point array with more than two elements panicked inside the
+    decoding library.) *)
+Theorem C16_decode_total : forall j, decodeTMS j <> Panic /\ decodeTMS j <> ErrorOrPanic.
+Proof. exact decode_total_lemma. Qed.
+Print Assumptions C16_decode_total.
+
+(** a tile matrix decodes only if its pointOfOrigin member is an array of exactly two numbers, which become the origin *)
+Theorem C16_point_exact : forall o m, decodeTM o = Ok m ->
+  exists a b, lookup_last "pointOfOrigin" o = Some (JArr [JNum a; JNum b]) /\ tm_origin m = Some (a, b).
+Proof. exact origin_exact_lemma. Qed.
+Print Assumptions C16_point_exact.
 
 (** every tile matrix of a decoded document was decoded on its own *)
 Theorem C16_decoded_matrices : forall o t, decodeTMS (JObj o) = Ok t ->
@@ -82,18 +88,7 @@ Proof. exact decoded_matrices_lemma. Qed.
 Print Assumptions C16_decoded_matrices.
 
 (** What the code as it stands gets wrong (each witness is found again on the implementation by the harness on every
-    run and attributed to the known finding named). *)
-
-(** F6c: decoding is not total -- a 3-element pointOfOrigin panics inside the decoding library *)
-Theorem C16_refuted_decode_total : exists doc, decodeTMS doc = Panic.
-Proof. exact decode_panics_ex. Qed.
-Print Assumptions C16_refuted_decode_total.
-
-(** F6c: an incomplete point is accepted, the missing coordinate read as 0 *)
-Theorem C16_refuted_incomplete_point_rejected : exists t m,
-  decodeTMS doc_origin1 = Ok t /\ the_tm t = Some m /\ tm_origin m = Some (Dec 1 0, Dec 0 0).
-Proof. exact short_origin_accepted. Qed.
-Print Assumptions C16_refuted_incomplete_point_rejected.
+    run and attributed to the known finding F6b). *)
 
 (** F6b: negative and fractional sizes are accepted *)
 Theorem C16_refuted_nonpositive_rejected : exists t m,
@@ -135,9 +130,16 @@ Theorem C16_builtin_stable : forall name doc, In (name, doc) gen_tms_documents -
 Proof. exact builtin_stable_thm. Qed.
 Print Assumptions C16_builtin_stable.
 
-(** the hypotheses of the two partial theorems are met by concrete documents: tileWidth 0 (an error), and the
-    well-formed small document (no long point; decodes) *)
+(** regression F6c (repaired): the old witnesses -- pointOfOrigin with 3 elements (used to panic), with 1 element
+    (used to be accepted), null, a non-number element, and a 3-element boundingBox.lowerLeft -- are errors in the
+    model of the repaired code; the well-formed document still decodes *)
+Example C16_regression_F6c_points :
+  decodeTMS doc_origin3 = Error /\ decodeTMS doc_origin1 = Error /\
+  decodeTMS doc_origin_null = Error /\ decodeTMS doc_origin_str = Error /\ decodeTMS doc_bbox3 = Error /\
+  exists t, decodeTMS doc_ok = Ok t.
+Proof. exact regression_F6c. Qed.
+
+(** the hypotheses of C16_nonpositive_rejected_partial are met by a concrete document: tileWidth 0 is an error *)
 Example C16_example_zero_width :
-  decodeTMS (doc_with (tm_with (jn 0 0) (JArr [jn 1 0; jn 2 0]) [])) = Error /\
-  points_short doc_ok = true /\ points_short doc_origin3 = false /\ (exists t, decodeTMS doc_ok = Ok t).
-Proof. split; [vm_compute; reflexivity|]. split; [vm_compute; reflexivity|]. split; [vm_compute; reflexivity|]. eexists. vm_compute. reflexivity. Qed.
+  decodeTMS (doc_with (tm_with (jn 0 0) (JArr [jn 1 0; jn 2 0]) [])) = Error.
+Proof. vm_compute. reflexivity. Qed.
